@@ -313,12 +313,16 @@ func (g *Generator) buildFlattenedVariantSchemas(
 		// Build variant schema: common fields + discriminator + variant fields
 		variantProps := orderedmap.New[string, *base.SchemaProxy]()
 
-		// Add common (non-oneof) fields
+		// Add common (non-oneof) fields; the discriminator is always required, the others when their rules say so
+		required := []string{info.Discriminator}
 		for _, field := range message.Fields {
 			if oneofFields[string(field.Desc.Name())] {
 				continue
 			}
 			variantProps.Set(field.Desc.JSONName(), g.convertField(field))
+			if checkIfFieldRequired(field) {
+				required = append(required, field.Desc.JSONName())
+			}
 		}
 
 		// Add discriminator field
@@ -332,13 +336,16 @@ func (g *Generator) buildFlattenedVariantSchemas(
 		if variant.IsMessage {
 			for _, childField := range variant.Field.Message.Fields {
 				variantProps.Set(childField.Desc.JSONName(), g.convertField(childField))
+				if checkIfFieldRequired(childField) {
+					required = append(required, childField.Desc.JSONName())
+				}
 			}
 		}
 
 		variantSchema := &base.Schema{
 			Type:       []string{"object"},
 			Properties: variantProps,
-			Required:   []string{info.Discriminator},
+			Required:   required,
 		}
 
 		// Register and reference the variant schema
